@@ -280,7 +280,7 @@ def _run(ctx, pgpy, d):
                 ctx.violations[before]['what'] = 'repaired defect is back: %s (%s)' % (e.get('what', e['key']), ctx.violations[before]['what'])
 
     alpha = ['-', ' ', '\n', '\r', 'a', '\t']
-    maxlen = ctx.n(5, 7)
+    maxlen = ctx.n(5, 6)
     small = [''.join(c) for k in range(0, maxlen + 1) for c in itertools.product(alpha, repeat=k)]
     texts = list(FIXED_TEXTS) + small
     for i in range(ctx.n(1500, 20000)):
@@ -332,7 +332,7 @@ def _run(ctx, pgpy, d):
     keys = {n: get(n) for n in knames}
     hashes = ['SHA256', 'SHA512', 'SHA384', 'SHA224', 'SHA1', 'MD5']
     flow = list(FIXED_TEXTS) + [''.join(c) for k in range(0, ctx.n(3, 4) + 1) for c in itertools.product(alpha, repeat=k)]
-    for i in range(ctx.n(250, 4000)):
+    for i in range(ctx.n(250, 2500)):
         flow.append(gen_text(rng, nonascii=(i % 4 == 0), long=(i % ctx.n(120, 53) == 7)))
     for i, t in enumerate(flow):
         ns = 1 if i % 3 else rng.choice([2, 3])
